@@ -457,6 +457,10 @@ def run(ctx):
         ctx.ob('R05.7', 'the guard undoes exactly what it did (-1 on creation, +1 on drop)', ops == [('fetch_add', '1_isize'), ('fetch_sub', '1_isize')] and
                any(n_ == gd[0].name and o == 'fetch_add' for n_, o, a in subs) if gd else False, '', str(subs), construct='getguard-symmetry')
 
+    # ---- R05.5 (cont.) a refusal with Timeout is the size semaphore's answer, nothing else's (shared with C12) --------
+    from .rules_C12 import timeout_only_from_semaphore
+    timeout_only_from_semaphore(ctx, r, 'R05.5', (r.TRY_ADD, r.ADD), floor=1)
+
     # ---- R05.8 status(): which quantity, with which sign, reaches which field (sign-domain abstract interpretation) -----
     from . import signeval
     st = r.STATUS
@@ -476,7 +480,7 @@ def run(ctx):
         if t.args and t.args[0].kind != 'const' and not t.args[0].place.proj:
             a0 = env.get(t.args[0].place.local)
         meth = sorted(names)[0].split('::')[-1] if names else ''
-        if meth == 'try_from' and a0 is not None and a0[0] == 'a':
+        if meth in ('try_from', 'try_into') and a0 is not None and a0[0] == 'a':
             return ('tryfrom', a0)
         if meth in ('unwrap_or', 'unwrap_or_default') and a0 is not None and a0[0] == 'tryfrom':
             inner = a0[1]
@@ -505,6 +509,9 @@ def run(ctx):
             out = signeval.run(st, san, sg, classify_call, classify_field)
         except signeval.Unknown as e:
             ctx.undecide('R05.8', 'status(): cannot evaluate the case %s: %s' % (label, e)); continue
+        if any(out.get(k) is None for k in ('max_size', 'size', 'available', 'waiting')):
+            # a field computed with an operation the evaluator has no meaning for: no verdict, never an alarm
+            ctx.undecide('R05.8', 'status(): field(s) %s computed in a way that is not understood (case %s)' % ([k for k in ('max_size', 'size', 'available', 'waiting') if out.get(k) is None], label)); continue
         def same(v, w):
             if sg == 0 and v is not None and v[0] == 'a':
                 v = ('c', 0)
